@@ -1,10 +1,11 @@
 import RsMatterVerif.Model.SecureMsg
 import Driver.Util
-/-! Driver for C03: replays the harness' session set-up, encodings and deliveries on
-`Model/SecureMsg` (ideal AEAD table filled with the cipher texts the real code produced) and
-evaluates the specification — *handed on only if authentic for that session; otherwise that
-session's state is untouched; what was encoded is what is decoded* — on the implementation's own
-answers. -/
+/-! Driver for C03: replays the harness' set-up (fabrics with group keys, sessions), encodings and
+deliveries on `Model/SecureMsg` (ideal AEAD table filled with the cipher texts the real code
+produced; operational group keys symbolic, their 16-bit session ids as reported) and evaluates the
+specification — *handed on only if authentic for that session (group: under a key mapped to the
+addressed group); otherwise no session, no counter store entry is touched and nothing secured is
+sent; what was encoded is what is decoded* — on the implementation's own answers. -/
 namespace Driver.C03
 open SecureMsg
 
@@ -52,12 +53,33 @@ def KV.hexOpt (m : KV) (k : String) : Option Nat :=
   | some "-" => none
   | some v => some (hexNat v)
 
+/-- `<n>` UDP [::1]:1000+n, `t<n>` TCP, `b<n>` BTP, `v<n>` UDP 127.0.0.n:1000, `m<n>` UDP [::ffff:127.0.0.n]:1000 -/
+def addrOf (s : String) : Addr :=
+  match s.toList with
+  | 't' :: r => .tcp (.v6 1) (1000 + (String.ofList r).toNat?.getD 0)
+  | 'b' :: r => .btp ((String.ofList r).toNat?.getD 0)
+  | 'v' :: r => .udp (.v4 (127 * 16777216 + (String.ofList r).toNat?.getD 0)) 1000
+  | 'm' :: r => .udp (.v6 (65535 * 4294967296 + 127 * 16777216 + (String.ofList r).toNat?.getD 0)) 1000
+  | _ => .udp (.v6 1) (1000 + s.toNat?.getD 0)
+
+def addrStr : Addr → String
+  | .tcp _ p => s!"t{p - 1000}"
+  | .btp a => s!"b{a}"
+  | .udp (.v4 n) _ => s!"v{n % 256}"
+  | .udp (.v6 n) p => if n / 4294967296 = 65535 then s!"m{n % 256}" else s!"{p - 1000}"
+
 def modeOf (s : String) : Mode :=
   match s.toList with
   | 'P' :: _ => .pase
   | 'C' :: _ => .case
-  | 'G' :: r => .group ((String.ofList r).toNat?.getD 0)
+  | 'G' :: r =>
+    match (String.ofList r).splitOn "." with
+    | [f, g] => .group (f.toNat?.getD 0) (g.toNat?.getD 0)
+    | _ => .group 1 ((String.ofList r).toNat?.getD 0)
   | _ => .plain
+
+def modeStr : Mode → String
+  | .plain => "N" | .pase => "P" | .case => "C" | .group f g => s!"G{f}.{g}"
 
 def exchsOf (s : String) : List Exch :=
   (s.splitOn ",").filterMap fun e =>
@@ -66,9 +88,10 @@ def exchsOf (s : String) : List Exch :=
     let id := (String.ofList cs.dropLast).toNat?.getD 0
     some { id := id, responder := cs.getLast? != some 'I' }
 
+/-- a directly installed key number `k` is the model key `2 k` (operational group keys are odd) -/
 def sessOf (m : KV) : Session :=
-  { addr := m.num "a", localNode := (m.hexOpt "ln").getD 0, peerNode := m.hexOpt "pn",
-    decKey := m.num "dk", encKey := m.num "ek", localSid := m.num "ls", peerSid := m.num "ps",
+  { addr := addrOf ((m.get "a").getD "0"), localNode := (m.hexOpt "ln").getD 0, peerNode := m.hexOpt "pn",
+    decKey := 2 * m.num "dk", encKey := 2 * m.num "ek", localSid := m.num "ls", peerSid := m.num "ps",
     txCtr := m.num "tx" % 268435456, mode := modeOf ((m.get "m").getD "N"),
     exchs := (match m.get "ex" with | some e => exchsOf e | none => []),
     expired := m.num "expired" = 1 }
@@ -80,17 +103,15 @@ def optStr : Option Nat → String
 def exSum (e : Exch) : String :=
   s!"{e.id}/{if e.responder then "R" else "I"}/{optStr e.retrans}/{optStr e.ack}"
 
-def sessSummary (s : Session) (hideTx : Bool) : String :=
-  let tx := if hideTx then "?" else toString s.txCtr
-  s!"rx={s.rx.max}:{s.rx.bitmap}:{if s.rx.synced then 1 else 0};tx={tx};ex=[{",".intercalate (s.exchs.map exSum)}]"
-
 def payloadOf (len seed : Nat) : Bytes :=
   (List.range len).map fun i => (seed * 31 + i * 7 + (i / 256) * 13) % 256
 
+def plainStr (p : PlainHdr) : String :=
+  s!"{p.flags}:{p.sessId}:{p.secFlags}:{p.ctr}:{toHexNat p.src}:{toHexNat p.dst}"
+
 def hdrStr (h : PacketHdr) : String :=
-  let p := h.plain
   let x := h.proto
-  s!"{p.flags}:{p.sessId}:{p.secFlags}:{p.ctr}:{toHexNat p.src}:{toHexNat p.dst}/{x.exchFlags}:{x.opcode}:{x.exchId}:{x.protoId}:{x.vendor}:{x.ack}"
+  s!"{plainStr h.plain}/{x.exchFlags}:{x.opcode}:{x.exchId}:{x.protoId}:{x.vendor}:{x.ack}"
 
 structure Dg where
   name : String
@@ -98,20 +119,48 @@ structure Dg where
   hdrLen : Nat
 
 structure St where
-  node : Node := []
-  /-- the sessions as installed (specification side: keys / peer ids never change) -/
-  decl : List Session := []
+  w : World := {}
+  now : Nat := 0
+  /-- fabrics in use: harness number, model fabric -/
+  fabs : List (Nat × FabricM) := []
+  /-- operational key ↦ group session id, as derived by the real KDF -/
+  sids : List (Nat × Nat) := []
+  /-- model key ↦ name used by the harness (`k<n>` / `g<fab no>:<epoch>`) -/
+  keyNames : List (Nat × String) := []
+  /-- specification side: ordinal ↦ the session as installed / as the implementation described it
+  when it created it (keys, peer id never change) -/
+  decl : List (Nat × Session) := []
+  installed : List Nat := []
+  nextOrd : Nat := 0
   senders : List (String × Session) := []
+  senderSid : List (String × Nat) := []
   dgs : List Dg := []
   tbl : Aead := []
-  hashes : List String := []
-  sums : List String := []
+  /-- implementation side: (ordinal, state hash) in table order; summaries by ordinal -/
+  hashes : List (Nat × String) := []
+  sums : List (Nat × String) := []
+  gHash : String := ""
+  gSum : String := "clock=0;[]"
 
-def modelSums (st : St) (n : Node) : List String :=
-  (List.range n.length).map fun i =>
-    match n[i]? with
-    | some s => sessSummary s (i ≥ st.decl.length)
-    | none => ""
+def St.env (st : St) : Env :=
+  { t := st.tbl, fabs := st.fabs.map (·.2), gsid := fun k => ((st.sids.find? (·.1 = k)).map (·.2)).getD 70000 }
+
+def St.keyName (st : St) (k : Nat) : String := ((st.keyNames.find? (·.1 = k)).map (·.2)).getD "?"
+def St.keyOfName (st : St) (n : String) : Nat := ((st.keyNames.find? (·.2 = n)).map (·.1)).getD 0
+
+def identStr (st : St) (s : Session) : String :=
+  let kn (k : Nat) := if s.isEncrypted then st.keyName k else "-"
+  s!"id={s.localSid}:{s.peerSid}:{toHexNat s.localNode}:{match s.peerNode with | some n => toHexNat n | none => "-"}:{modeStr s.mode}:{kn s.decKey}:{kn s.encKey}:{addrStr s.addr}"
+
+def sessSummary (st : St) (s : Session) (hidden : Bool) : String :=
+  let tx := if hidden then "?" else toString s.txCtr
+  let base := s!"rx={s.rx.max}:{s.rx.bitmap}:{if s.rx.synced then 1 else 0};tx={tx};ex=[{",".intercalate (s.exchs.map exSum)}]"
+  if hidden then s!"{base};{identStr st s}" else base
+
+def gstoreStr (g : Dedup.GStore) : String :=
+  let es := g.entries.map fun e =>
+    s!"{e.fab}:{toHexNat e.node}:{e.rx.max}:{e.rx.bitmap}:{if e.rx.synced then 1 else 0}:{e.lastUsed}"
+  s!"clock={g.clock};[{",".intercalate es}]"
 
 def flipBit (d : Bytes) (bit : Nat) : Option Bytes :=
   if bit / 8 < d.length then
@@ -132,23 +181,49 @@ def mutate (st : St) (d : Dg) (m : String) : Option Bytes :=
     (st.dgs.find? (·.name = other)).map fun o => o.bytes.take o.hdrLen ++ d.bytes.drop d.hdrLen
   | _ => none
 
-/-- the impl's answer split into (result + decoded part, hashes, changed summaries) -/
-def splitOut (out : String) : String × List String × List (Nat × String) :=
+structure ImplOut where
+  head : String
+  now : Nat
+  /-- (ordinal, hash) in table order -/
+  hashes : List (Nat × String)
+  lru : List Nat
+  gHash : String
+  /-- changed sessions: (table index, summary) -/
+  changes : List (Nat × String)
+  gSum : Option String
+  replies : List String
+
+def listOf (v : String) : List String := if v = "-" then [] else v.splitOn ","
+
+def parseOut (out : String) : ImplOut :=
   let ws := words out
-  let head := ws.filter fun w => !(w.startsWith "S=") && !(w.startsWith "C")
-  let hs := match ws.find? (·.startsWith "S=") with
-    | some w => let v := (w.drop 2).toString; if v = "-" then [] else v.splitOn ","
+  let isChange (w : String) : Bool :=
+    match w.toList with
+    | 'C' :: r => !(r.takeWhile Char.isDigit).isEmpty && (r.dropWhile Char.isDigit).head? == some '='
+    | _ => false
+  let isMeta (w : String) : Bool :=
+    w.startsWith "T=" || w.startsWith "S=" || w.startsWith "L=" || w.startsWith "G=" || w.startsWith "GS="
+      || w.startsWith "R=" || isChange w
+  let head := ws.filter (fun w => !isMeta w)
+  let val (p : String) : Option String := (ws.find? (·.startsWith p)).map fun w => (w.drop p.length).toString
+  let hashes := match val "S=" with
+    | some v => (listOf v).filterMap fun e =>
+        match e.splitOn ":" with
+        | [o, h] => o.toNat?.map (·, h)
+        | _ => none
+    | none => []
+  let lru := match val "L=" with
+    | some v => (listOf v).map (·.toNat?.getD 0)
     | none => []
   let cs := ws.filterMap fun w =>
-    if w.startsWith "C" then
+    if isChange w then
       match ((w.drop 1).toString).splitOn "=" with
       | i :: rest => i.toNat?.map (·, "=".intercalate rest)
       | _ => none
     else none
-  (" ".intercalate head, hs, cs)
-
-def applyChanges (sums : List String) (cs : List (Nat × String)) : List String :=
-  cs.foldl (fun acc (i, s) => if i < acc.length then acc.set i s else acc ++ [s]) sums
+  { head := " ".intercalate head, now := ((val "T=").bind String.toNat?).getD 0, hashes, lru,
+    gHash := (val "G=").getD "", changes := cs, gSum := val "GS=",
+    replies := match val "R=" with | some v => v.splitOn ";" | none => [] }
 
 /-- parse the decoded part `h=<plain>/<proto> p=<hex>` of an accepted delivery -/
 def parseAccepted (head : String) : Option (PlainHdr × ProtoHdr × Bytes) :=
@@ -171,57 +246,209 @@ def outcomeStr : Outcome → String
   | .err e => s!"err:{e.name}"
   | .ok _ nw h p => s!"ok:{if nw then "new" else "old"} h={hdrStr h} p={hexBytes p}"
 
+/-- the session the implementation says it created: `…;id=<lsid>:<psid>:<lnode>:<pnode>:<mode>:<dec>:<enc>:<addr>` -/
+def declOfSummary (st : St) (sum : String) : Option Session :=
+  match (sum.splitOn ";").find? (·.startsWith "id=") with
+  | none => none
+  | some w =>
+    match ((w.drop 3).toString).splitOn ":" with
+    | [ls, ps, ln, pn, mode, dk, ek, a] =>
+      some { addr := addrOf a, localNode := hexNat ln, peerNode := if pn = "-" then none else some (hexNat pn),
+             decKey := st.keyOfName dk, encKey := st.keyOfName ek, localSid := ls.toNat?.getD 0,
+             peerSid := ps.toNat?.getD 0, mode := modeOf mode }
+    | _ => none
+
+def replyStr (st : St) (r : Reply) (hideCtr : Bool) : String :=
+  let key := match r.key with | some k => st.keyName k | none => "-"
+  let h := if hideCtr then { r.hdr with plain := { r.hdr.plain with ctr := 0 } } else r.hdr
+  s!"{addrStr r.to}|{key}|{hdrStr h}|{hexBytes r.payload}"
+
+/-- the implementation's reply with the counter blanked (for sessions whose send counter is random) -/
+def blankCtr (r : String) : String :=
+  match r.splitOn "|" with
+  | [a, k, h, p] =>
+    match h.splitOn "/" with
+    | [pl, px] =>
+      match pl.splitOn ":" with
+      | [pf, sid, sf, _, src, dst] => s!"{a}|{k}|{pf}:{sid}:{sf}:0:{src}:{dst}/{px}|{p}"
+      | _ => r
+    | _ => r
+  | _ => r
+
+def replyExchId (r : String) : Nat :=
+  match r.splitOn "|" with
+  | [_, _, h, _] =>
+    match h.splitOn "/" with
+    | [_, px] => match px.splitOn ":" with
+      | _ :: _ :: xid :: _ => xid.toNat?.getD 0
+      | _ => 0
+    | _ => 0
+  | _ => 0
+
 /-- The property's specification evaluated on the implementation's answer to one delivery.
-`dg` = the bytes delivered, `old/new` = state hashes before / after, `head` = result (+ decoded part). -/
-def oracle (st : St) (dg : Bytes) (head : String) (old new : List String) : Option String :=
-  let changed := (List.range new.length).filter fun i => old[i]? != new[i]?
-  let isSecure (i : Nat) : Bool := match st.decl[i]? with | some s => s.isEncrypted | none => false
-  let authentic (i : Nat) : Bool := match st.decl[i]? with | some s => authenticForB st.tbl s dg | none => false
-  if head.startsWith "panic" then some "panic while decoding a datagram" else
-  -- (1) a session for which the datagram is not authentic keeps its counters, exchanges and keys
-  match (List.range st.decl.length).find? (fun i => isSecure i && !authentic i && changed.contains i) with
-  | some i => some s!"state of secure session {i} changed by a datagram that is not authentic for it"
+`dg` = the bytes delivered, `old/new` = (ordinal, state hash) lists before / after. -/
+def oracle (st : St) (dg : Bytes) (io : ImplOut) (full : Bool) : Option String :=
+  let old := st.hashes
+  let new := io.hashes
+  let E := st.env
+  let declOf (o : Nat) : Option Session := (st.decl.find? (·.1 = o)).map (·.2)
+  let isSecure (o : Nat) : Bool := match declOf o with | some s => s.isEncrypted | none => false
+  let authentic (o : Nat) : Bool := match declOf o with | some s => authenticForB st.tbl s dg | none => false
+  let hashOf (l : List (Nat × String)) (o : Nat) : Option String := (l.find? (·.1 = o)).map (·.2)
+  let gauth := groupAuthenticB E dg
+  let claimsSecure := match PlainHdr.decode dg with | .ok (h, _) => h.isEncrypted | .error _ => true
+  let anyAuth := old.any fun (o, _) => isSecure o && authentic o
+  let created := new.filter fun (o, _) => (hashOf old o).isNone
+  let changed := new.filter fun (o, h) => match hashOf old o with | some h' => h' != h | none => false
+  if io.head.startsWith "panic" then some "panic while processing a datagram" else
+  -- (1) a secure session for which the datagram is not authentic keeps its counters, exchanges and
+  --     keys — and stays in the table — when the datagram claims to be a secured one and is no
+  --     authentic group message either (those two may evict an idle session of a full table)
+  match old.find? (fun (o, h) => isSecure o && !authentic o && claimsSecure && !gauth && hashOf new o != some h) with
+  | some (o, _) =>
+    some s!"state of secure session #{o} changed by a datagram that is not authentic for it{if (hashOf new o).isNone then " (session removed)" else ""}"
   | none =>
-    if new.length < old.length then some "a session disappeared" else
-    if !head.startsWith "ok" then none else
+    -- (1') whatever else happens, a session that is not removed and for which the datagram is not authentic is unchanged
+    match changed.find? (fun (o, _) => isSecure o && !authentic o) with
+    | some (o, _) => some s!"state of secure session #{o} changed by a datagram that is not authentic for it"
+    | none =>
+    -- (3) the group counter store is consulted only for an authentic group message (one that is
+    --     authentic under a key mapped to the addressed group, or for a live group session of its sender)
+    let grpSessAuth := old.any fun (o, _) =>
+      match declOf o with | some s => s.isGroup && authenticForB st.tbl s dg | none => false
+    if io.gSum.isSome && !gauth && !grpSessAuth then some "group counter store changed by a datagram that is no authentic group message" else
+    -- (4) a session comes into existence only for an authentic group message or an unsecured datagram
+    if !created.isEmpty && claimsSecure && !gauth then some "a session was created by a secured datagram that is no authentic group message" else
+    -- (5) a datagram that is authentic for nothing makes the node send at most an unsecured SessionNotFound
+    let badReply := full && claimsSecure && !anyAuth && !gauth &&
+      (io.replies.length > 1 || io.replies.any fun r =>
+        match r.splitOn "|" with
+        | [_, k, _, p] => k != "-" || unhex p != statusReport GC_FAILURE SC_SESSION_NOT_FOUND []
+        | _ => true)
+    if badReply then some s!"reply to a datagram that is authentic for nothing: {io.replies}" else
+    let handedOn := io.head.startsWith "ok" || io.head.startsWith "deliver"
+    if !handedOn then none else
     -- (2) handed on: to exactly one session; if that is a secure one the datagram is authentic for it
-    --     and the decoded header fields and payload are the encoded ones
-    match changed with
-    | [i] =>
-      if !isSecure i then none else
-      if !authentic i then some s!"handed to secure session {i} although not authentic for it" else
-      match parseAccepted head, st.decl[i]? with
-      | some (pl, px, payload), some s =>
-        let okRec := st.tbl.any fun rec =>
-          rec.key == s.decKey && dg == rec.aad ++ rec.ct && rec.aad == pl.encode
-            && rec.pt == px.encode ++ payload
-        if okRec then none else some s!"decoded header/payload differ from what was encoded (session {i})"
-      | _, _ => some "accepted delivery without decoded header"
+    --     (a new group session: authentic under a key mapped to the addressed group) and the decoded
+    --     header fields and payload are the encoded ones
+    match changed ++ created with
+    | [(o, _)] =>
+      let isNew := (hashOf old o).isNone
+      match parseAccepted io.head with
+      | none => some "accepted delivery without decoded header"
+      | some (pl, px, payload) =>
+        if isNew then
+          if !pl.isEncrypted then none else
+          if !gauth then some "group message handed on although not authentic under a key of the addressed group" else
+          let okRec := st.tbl.any fun rec =>
+            dg == rec.aad ++ rec.ct && rec.aad == pl.encode && rec.pt == px.encode ++ payload
+          if okRec then none else some s!"decoded header/payload differ from what was encoded (new group session #{o})"
+        else
+        if !isSecure o then none else
+        if !authentic o then some s!"handed to secure session #{o} although not authentic for it" else
+        -- a group data message that reaches an ephemeral group session (one the node created for an
+        -- earlier message of the sender) must still be authentic under a key mapped to the group it addresses
+        if pl.isGroup && !pl.isControl && !st.installed.contains o && !gauth then
+          some s!"group data message handed on through session #{o} although no key mapped to the addressed group authenticates it" else
+        match declOf o with
+        | some s =>
+          -- over a reliable transport the R and A flags are lowered on receipt (`adjust_reliability`)
+          let okRec := st.tbl.any fun rec =>
+            rec.key == s.decKey && dg == rec.aad ++ rec.ct && rec.aad == pl.encode
+              && ((ProtoHdr.decode rec.pt).toOption.map fun (p, pay) => (p.adjustReliability s.addr, pay)) == some (px, payload)
+          if okRec then none else some s!"decoded header/payload differ from what was encoded (session #{o})"
+        | none => none
     | [] => some "handed on but no session state moved (receive window not updated)"
-    | _ => some s!"handed on but several sessions changed: {changed}"
+    | l => some s!"handed on but several sessions changed: {l.map (·.1)}"
 
 def step (st : St) (line : String) : St × String :=
   let (op, out) := splitArrow line
   if out = "skip" then (st, "ok") else
   match words op with
   | "case" :: _ => ({}, "case")
+  | ["f", no] =>
+    let m := kvOf (words out)
+    if !out.startsWith "ok" then (st, "DIS ok") else
+    let f : FabricM := { fabIdx := m.num "idx", nodeId := (m.hexOpt "node").getD 0, cfid := (m.hexOpt "cfid").getD 0 }
+    ({ st with fabs := st.fabs ++ [(no.toNat?.getD 0, f)] }, "ok")
+  | "ks" :: rest =>
+    let m := kvOf rest
+    let mo := kvOf (words out)
+    let no := m.num "f"
+    match st.fabs.find? (·.1 = no) with
+    | none => (st, if out.startsWith "err" then "ok" else "DIS err NoFabric")
+    | some (_, f) =>
+      if !out.startsWith "ok" then (st, s!"BAD key set refused: {out}") else
+      let es := (listOf ((mo.get "e").getD "-")).map (·.toNat?.getD 0)
+      let ss := (listOf ((mo.get "sid").getD "-")).map (·.toNat?.getD 0)
+      -- epoch key number `k` is the 128-bit key `k` (distinct numbers, distinct keys)
+      let ks : KeySetM := { id := m.num "id", epochKeys := es }
+      let sets' : List KeySetM :=
+        if f.keySets.any (fun x => x.id == ks.id) then f.keySets.map (fun x => if x.id == ks.id then ks else x)
+        else f.keySets ++ [ks]
+      let f' := { f with keySets := sets' }
+      let newSids := (es.zip ss).map fun (e, s) => (opKey e f.cfid, s)
+      let newNames := es.map fun e => (opKey e f.cfid, s!"g{no}.{e}")
+      ({ st with fabs := st.fabs.map (fun x => if x.1 = no then (no, f') else x),
+                 sids := newSids ++ st.sids, keyNames := newNames ++ st.keyNames }, "ok")
+  | "gm" :: rest =>
+    let m := kvOf rest
+    let no := m.num "f"
+    if !out.startsWith "ok" then (st, s!"BAD mapping refused: {out}") else
+    ({ st with fabs := st.fabs.map fun x =>
+        if x.1 = no then (no, { x.2 with keyMap := x.2.keyMap ++ [(m.num "g", m.num "ks")] }) else x }, "ok")
+  | ["tick", n] => ({ st with now := st.now + n.toNat?.getD 0 }, "ok")
   | "s" :: rest =>
-    let s := sessOf (kvOf rest)
-    let st' := { st with node := st.node ++ [s], decl := st.decl ++ [s] }
+    let m := kvOf rest
+    let s := sessOf m
+    let o := st.nextOrd
+    let st' := { st with w := { st.w with node := st.w.node ++ [s], lru := st.w.lru ++ [st.now] },
+                         decl := st.decl ++ [(o, s)], installed := st.installed ++ [o], nextOrd := o + 1,
+                         keyNames := (s.encKey, s!"k{m.num "ek"}") :: st.keyNames }
     match words out with
     | ["ok", sum, h] =>
-      let st' := { st' with hashes := st.hashes ++ [(h.drop 1).toString], sums := st.sums ++ [sum] }
-      if sum = sessSummary s false then (st', "ok") else (st', s!"DIS {sessSummary s false}")
-    | _ => (st', s!"DIS ok {sessSummary s false}")
+      let st' := { st' with hashes := st.hashes ++ [(o, (h.drop 1).toString)], sums := st.sums ++ [(o, sum)] }
+      if sum = sessSummary st s false then (st', "ok") else (st', s!"DIS {sessSummary st s false}")
+    | _ => (st', s!"DIS ok {sessSummary st s false}")
   | "t" :: name :: rest =>
-    ({ st with senders := (name, sessOf (kvOf rest)) :: st.senders.filter (·.1 ≠ name) }, if out = "ok" then "ok" else "DIS ok")
+    let m := kvOf rest
+    let s := sessOf m
+    match m.get "gk" with
+    | some gk =>
+      match gk.splitOn ":" with
+      | [fno, e] =>
+        match st.fabs.find? (·.1 = fno.toNat?.getD 0) with
+        | none => (st, if out.startsWith "err" then "ok" else "DIS err NoFabric")
+        | some (_, f) =>
+          let k := opKey (e.toNat?.getD 0) f.cfid
+          let sid := (kvOf (words out)).num "sid"
+          let s := { s with decKey := k, encKey := k }
+          ({ st with senders := (name, s) :: st.senders.filter (·.1 ≠ name),
+                     senderSid := (name, sid) :: st.senderSid.filter (·.1 ≠ name),
+                     sids := if st.sids.any (·.1 = k) then st.sids else (k, sid) :: st.sids },
+           if out.startsWith "ok" then
+             -- the same key must always have the same session id
+             (match st.sids.find? (·.1 = k) with
+              | some (_, s0) => if s0 = sid then "ok" else "DIS group session id differs for the same key"
+              | none => "ok")
+           else "DIS ok")
+      | _ => (st, "BAD gk")
+    | none =>
+      ({ st with senders := (name, s) :: st.senders.filter (·.1 ≠ name) }, if out = "ok" then "ok" else "DIS ok")
   | "x" :: name :: rest =>
     let m := kvOf rest
     match st.senders.find? (·.1 = (m.get "t").getD "") with
     | none => (st, "DIS skip")
     | some (tn, s) =>
+      let sidv : Option Nat :=
+        match m.get "sid" with
+        | some v => if v.startsWith "@" then (st.senderSid.find? (·.1 = (v.drop 1).toString)).map (·.2) else v.toNat?
+        | none => some 0
+      match sidv with
+      | none => (st, "DIS skip")
+      | some sidn =>
       let h0 : PacketHdr :=
-        { plain := { flags := m.num "pf", sessId := m.num "sid", secFlags := m.num "sf", ctr := m.num "ctr",
+        { plain := { flags := m.num "pf", sessId := sidn, secFlags := m.num "sf", ctr := m.num "ctr",
                      src := (m.hexOpt "src").getD 0, dst := (m.hexOpt "dst").getD 0 },
           proto := { exchFlags := m.num "xf", opcode := m.num "op", exchId := m.num "xid", protoId := m.num "pid",
                      vendor := m.num "vid", ack := m.num "ack" } }
@@ -234,7 +461,12 @@ def step (st : St) (line : String) : St × String :=
       match pre with
       | .error e => (st, if out = s!"err {e.name}" then "ok" else s!"DIS err {e.name}")
       | .ok (h, s') =>
-        let payload := payloadOf (m.num "pl") (m.num "ps")
+        let scBytes : Bytes := match m.get "sc" with
+          | some v => match v.splitOn ":" with
+            | [g, p, c] => le 2 (g.toNat?.getD 0) ++ le 4 (p.toNat?.getD 0) ++ le 2 (c.toNat?.getD 0)
+            | _ => []
+          | none => []
+        let payload := scBytes ++ payloadOf (m.num "pl") (m.num "ps")
         let st := { st with senders := (tn, s') :: st.senders.filter (·.1 ≠ tn) }
         match words out with
         | ["dg", hx] =>
@@ -257,7 +489,9 @@ def step (st : St) (line : String) : St × String :=
               else ({ st with tbl := r :: st.tbl }, "ok")
             | none => (st, "ok")
         | _ => (st, s!"DIS dg {hexBytes h.plain.encode}..")
-  | "r" :: name :: rest =>
+  | kind :: name :: rest =>
+    if kind != "r" && kind != "h" then (st, "BAD op") else
+    let full := kind == "h"
     let m := kvOf rest
     match st.dgs.find? (·.name = name) with
     | none => (st, "DIS skip")
@@ -265,17 +499,65 @@ def step (st : St) (line : String) : St × String :=
       match mutate st d ((m.get "m").getD "none") with
       | none => (st, "DIS skip")
       | some bytes =>
-        let (head, newHashes, cs) := splitOut out
-        let sums' := applyChanges st.sums cs
-        let (o, node') := receive st.tbl st.node (m.num "a") bytes
-        let ora := oracle st bytes head st.hashes newHashes
-        let msums := modelSums st node'
-        let st' := { st with node := node', hashes := newHashes, sums := sums' }
+        let io := parseOut out
+        let from_ := addrOf ((m.get "a").getD "0")
+        let E := st.env
+        -- sessions the implementation created: remember how it describes them (specification side)
+        let newDecl := io.changes.filterMap fun (i, sum) =>
+          match io.hashes[i]? with
+          | some (o, _) => if st.decl.any (·.1 = o) then none else (declOfSummary st sum).map (o, ·)
+          | none => none
+        let ora := oracle st bytes io full
+        let sums' := io.changes.foldl (fun acc (i, s) =>
+          match io.hashes[i]? with
+          | some (o, _) => (o, s) :: acc.filter (·.1 ≠ o)
+          | none => acc) st.sums
+        let exchId := match io.replies.getLast? with | some r => replyExchId r | none => 0
+        let (mhead, mreplies, w') :=
+          if full then
+            let (res, w') := handleRx E st.now exchId st.w from_ bytes
+            let head := match res.failed with
+              | some e => s!"fail:{e.name}"
+              | none =>
+                if res.deliver then
+                  match (receive E st.now st.w from_ bytes).1 with
+                  | .ok _ _ h p => s!"deliver h={hdrStr h} p={hexBytes p}"
+                  | .err _ => "deliver"
+                else "consumed"
+            (head, res.replies, w')
+          else
+            let (o, w') := receive E st.now st.w from_ bytes
+            (outcomeStr o, [], w')
+        let hidden (i : Nat) : Bool := match io.hashes[i]? with | some (o, _) => !st.installed.contains o | none => true
+        let st1 := { st with decl := st.decl ++ newDecl }
+        let msums := (List.range w'.node.length).map fun i =>
+          match w'.node[i]? with
+          | some s => sessSummary st1 s (hidden i)
+          | none => ""
+        let isums := io.hashes.map fun (o, _) => ((sums'.find? (·.1 = o)).map (·.2)).getD ""
+        let gsum' := io.gSum.getD st.gSum
+        -- replies: a reply on a session with a random send counter is compared with the counter blanked
+        let hideCtrOf (r : Reply) : Bool :=
+          match r.via with
+          | none => false
+          | some i =>
+            -- written on a session the implementation created itself (random send counter)?
+            match st.hashes[i]? with
+            | some (o, _) => !st.installed.contains o
+            | none => true
+        let mrs := mreplies.map fun r => replyStr st1 r (hideCtrOf r)
+        let irs := (io.replies.zip (mreplies.map hideCtrOf ++ List.replicate io.replies.length false)).map fun (r, hd) => if hd then blankCtr r else r
+        let st' := { st1 with w := w', hashes := io.hashes, sums := sums', gHash := io.gHash, gSum := gsum',
+                              nextOrd := io.hashes.foldl (fun a (o, _) => max a (o + 1)) st.nextOrd }
         match ora with
         | some why => (st', s!"ORA {why}")
         | none =>
-          if outcomeStr o != head then (st', s!"DIS {outcomeStr o}")
-          else if msums != sums' then (st', s!"DIS state {msums}")
+          if io.now != st.now then (st', s!"BAD clock: harness says {io.now}, driver {st.now}")
+          else if mhead != io.head then (st', s!"DIS {mhead}")
+          else if msums != isums then (st', s!"DIS state {msums}")
+          else if w'.lru != io.lru then (st', s!"DIS last_use {w'.lru}")
+          else if gstoreStr w'.gstore != gsum' then (st', s!"DIS gstore {gstoreStr w'.gstore}")
+          else if mrs != irs then (st', s!"DIS replies {mrs}")
           else (st', "ok")
   | _ => (st, "BAD op")
 
